@@ -72,12 +72,13 @@ class TSpec(Spec):
         self.env[name] = SArr(name, new if z3.is_true(a) else z3.If(a, new, arr.arr), None, False)
 
 
-def check_spec(specname, N, qtimeout_ms=30000, use_pre=True, want_model=True):
+def check_spec(specname, N, fixed=None, qtimeout_ms=30000, use_pre=True, want_model=True, plan_only=False):
     """-> result dict for one specialization"""
     t0 = time.time()
     sp = kspec.spec_by_name()[specname]
     k = sp.kernel
-    res = dict(unit=specname, kernel=k.name, N=N, obligations=[], status='ok')
+    fixed = dict(fixed or {})
+    res = dict(unit=specname, kernel=k.name, N=N, fixed=fixed, obligations=[], status='ok')
     if any(a.depth > 1 for a in sp.args):
         res['status'] = 'skipped'; res['detail'] = 'pointer-to-pointer argument (covered by a dedicated harness)'
         return res
@@ -97,7 +98,7 @@ def check_spec(specname, N, qtimeout_ms=30000, use_pre=True, want_model=True):
         ctx = Ctx(specname, unwind=N * N + N + 6, check_timeout_ms=qtimeout_ms)
     except Unsupported as e:
         res['status'] = 'unsupported'; res['detail'] = str(e); return res
-    args = kharness.setup_from_spec(ctx, sp)
+    args = kharness.setup_from_spec(ctx, sp, values=fixed)
     # ---- definition-side arguments
     sargs = {}
     for a, pname in zip(sp.args, params):
@@ -126,7 +127,9 @@ def check_spec(specname, N, qtimeout_ms=30000, use_pre=True, want_model=True):
     # ---- premises
     prem = []
     if use_pre:
-        prem += pre.for_spec(ctx, sp, N)
+        pp, pnames = pre.for_spec(ctx, sp, N)
+        prem += pp
+        res['preconditions'] = pnames
     for a in sp.args:            # C-level typing facts
         if a.depth == 1 and a.kind == 'b':
             for g, nm, idx, rw in spec.acc:
@@ -156,6 +159,18 @@ def check_spec(specname, N, qtimeout_ms=30000, use_pre=True, want_model=True):
         res['status'] = 'vacuous' if r0 == z3.unsat else 'inconclusive'
         res['detail'] = 'premises are %s' % r0
         return res
+    if plan_only:
+        # which length-like scalars do the premises bound by N?  (candidates for case splitting)
+        bounded = []
+        for a in sp.args:
+            if a.depth == 0 and a.kind == 'i' and a.name not in fixed:
+                v = widen(ctx.scalars[a.name][0], a.signed)
+                ctx.s.push(); ctx.s.add(z3.Or(v < 0, v > N)); r = ctx.s.check(); ctx.s.pop()
+                if r == z3.unsat:
+                    bounded.append(a.name)
+        res['bounded'] = bounded
+        res['status'] = 'plan'
+        return res
     # ---- kernel side
     try:
         cerr = ctx.call(specname, args)
@@ -183,34 +198,35 @@ def check_spec(specname, N, qtimeout_ms=30000, use_pre=True, want_model=True):
         obls.append(('out', '%s[%s]' % (a.name, z3.simplify(idx)), z3.And(live, g, sv != kv)))
     for o in ctx.eng.obl:
         obls.append((o.kind, o.desc + ' @ ' + o.where, o.cond))
-    s = ctx.s
     nsat = nunk = 0
     cex = None
+    seen = set()
     for kind, desc, cond in obls:
+        h = cond.hash() if hasattr(cond, 'hash') else id(cond)
+        if (kind, h) in seen:
+            continue
+        seen.add((kind, h))
         tq = time.time()
-        s.push(); s.add(cond)
-        r = s.check()
+        r, m = ctx.solve(cond, qtimeout_ms)
         ent = dict(kind=kind, desc=desc[:160], result=str(r), t=round(time.time() - tq, 2))
         if r == z3.sat:
             nsat += 1
             if cex is None and want_model:
-                m = s.model()
                 try:
                     cex = dict(obligation=ent, inputs=ctx.concretize(m))
                 except Exception as e:      # noqa
                     cex = dict(obligation=ent, error='concretize failed: %s' % e)
         elif r != z3.unsat:
             nunk += 1
-        s.pop()
         res['obligations'].append(ent)
     # reachability twins: no-error outcome reachable; error outcome reachable when the definition can raise
     tw = {}
-    s.push(); s.add(live); tw['ok-reachable'] = str(s.check()); s.pop()
+    tw['ok-reachable'] = str(ctx.solve(live, qtimeout_ms)[0])
     if not z3.is_false(z3.simplify(spec.err)):
-        s.push(); s.add(spec.err); tw['error-reachable'] = str(s.check()); s.pop()
+        tw['error-reachable'] = str(ctx.solve(spec.err, qtimeout_ms)[0])
     wr = [g for g, nm, idx, rw in spec.acc if rw == 'w']
     if wr:
-        s.push(); s.add(live, z3.Or(wr)); tw['write-reachable'] = str(s.check()); s.pop()
+        tw['write-reachable'] = str(ctx.solve([live, z3.Or(wr)], qtimeout_ms)[0])
     res['twins'] = tw
     res['nsat'], res['nunknown'] = nsat, nunk
     if nsat:
@@ -218,7 +234,7 @@ def check_spec(specname, N, qtimeout_ms=30000, use_pre=True, want_model=True):
         res['cex'] = cex
     elif nunk:
         res['status'] = 'inconclusive'
-    if tw.get('ok-reachable') == 'unsat':
+    if tw.get('ok-reachable') == 'unsat' and tw.get('error-reachable') != 'sat':
         res['status'] = 'vacuous'
     return res
 
@@ -351,3 +367,117 @@ def replay(specname, inputs):
     else:
         out['why'] = 'native kernel and CPython definition agree on these inputs'
     return out
+
+
+# ------------------------------------------------------------------------------------------------ driver
+def plan_cases(plan, N):
+    import itertools
+    names = plan.get('bounded', [])
+    if not names:
+        return [{}]
+    return [dict(zip(names, vals)) for vals in itertools.product(range(N + 1), repeat=len(names))]
+
+
+def representative(k):
+    """quick tier: one specialization per kernel (the first 64-bit signed one if any, else the first)"""
+    for s in k.specs:
+        if '64' in s.name and 'U32' not in s.name:
+            return [s]
+    return k.specs[:1]
+
+
+def main(report, tier):
+    from . import runner
+    N = 2 if tier == 'quick' else 3
+    qt = 15000 if tier == 'quick' else 60000
+    kernels = kspec.load()
+    if tier == 'quick':
+        specs = [s for k in kernels for s in k.specs]       # all specializations, N=2
+    else:
+        specs = [s for k in kernels for s in k.specs]
+    only = __import__('os').environ.get('VERIF_ONLY')
+    if only:
+        specs = [s for s in specs if any(x in s.name for x in only.split(','))]
+    plans = runner.run_tasks([(check_spec, (s.name, N, None, 10000, True, False, True), 120) for s in specs])
+    jobs, static = [], []
+    for p in plans:
+        if p['status'] == 'plan':
+            for case in plan_cases(p, N):
+                jobs.append((check_spec, (p['unit'], N, case, qt), 300 if tier == 'quick' else 900))
+        else:
+            static.append(p)
+    results = runner.run_tasks(jobs)
+    return summarize(report, tier, N, specs, static, results)
+
+
+def summarize(report, tier, N, specs, static, results):
+    import collections
+    per = collections.defaultdict(list)
+    for r in results:
+        per[r['unit']].append(r)
+    nobl = ndis = nq = nontriv = 0
+    samples, notexec, inconclusive, unsupported = [], [], [], []
+    programs_ok = 0
+    for unit, rs in sorted(per.items()):
+        st = collections.Counter(r['status'] for r in rs)
+        for r in rs:
+            for o in r.get('obligations', []):
+                nobl += 1; nq += 1
+                if o['result'] == 'unsat':
+                    ndis += 1
+            tw = r.get('twins', {})
+            nq += len(tw)
+            if tw.get('write-reachable') == 'sat' or tw.get('error-reachable') == 'sat':
+                nontriv += 1
+        if st.get('disagree'):
+            r = [r for r in rs if r['status'] == 'disagree'][0]
+            cex = r.get('cex') or {}
+            rp = None
+            if cex.get('inputs'):
+                try:
+                    rp = replay(unit, cex['inputs'])
+                except Exception as e:      # noqa
+                    rp = dict(confirmed=False, why='replay failed: %s: %s' % (type(e).__name__, e))
+            ob = cex.get('obligation', {})
+            what = ob.get('kind', '?') + ':' + re.sub(r'\[.*', '', ob.get('desc', '').split(' @ ')[0])[:60]
+            key = '%s|%s' % (unit, what)
+            text = '%s disagrees with its definition (%s; case %s): %s' % (unit, what, r.get('fixed'), (rp or {}).get('why'))
+            if rp and rp.get('confirmed'):
+                path = report.save_replay(unit, dict(unit=unit, obligation=ob, case=r.get('fixed'), replay=rp))
+                report.violation(key, path, text)
+            else:
+                report.harness_errors.append('unreproduced counterexample for %s (%s): %s' % (unit, what, (rp or {}).get('why')))
+                inconclusive.append(unit)
+        elif st.get('inconclusive') or st.get('timeout'):
+            inconclusive.append(unit)
+        elif st.get('unsupported') or st.get('harness-error'):
+            unsupported.append((unit, [r.get('detail') for r in rs if r['status'] in ('unsupported', 'harness-error')][0]))
+        elif st.get('vacuous') == len(rs):
+            unsupported.append((unit, 'all cases vacuous'))
+        else:
+            programs_ok += 1
+            if len(samples) < 6 and rs[0].get('obligations'):
+                samples.append(dict(unit=unit, case=rs[0].get('fixed'), preconditions=rs[0].get('preconditions'),
+                                    obligations=rs[0]['obligations'][:4], twins=rs[0].get('twins')))
+    for p in static:
+        if p['status'] == 'spec-not-executable':
+            notexec.append((p['unit'], p.get('detail')))
+        elif p['status'] in ('inconclusive', 'timeout', 'harness-error', 'unsupported'):
+            unsupported.append((p['unit'], p.get('detail')))
+    # non-executable definitions are a defect of the specification itself: listed as findings per kernel
+    seenk = set()
+    for unit, d in notexec:
+        kname = kspec.spec_by_name()[unit].kernel.name
+        if kname in seenk:
+            continue
+        seenk.add(kname)
+        report.violation('%s|spec-not-executable' % kname, report.save_replay('spec_' + kname, dict(kernel=kname, detail=d)),
+                         'the Python definition of %s in kernel-specification.yml is not executable: %s' % (kname, d))
+    cov = dict(programs=max(1, programs_ok), disagreements_checked=nobl, obligations=nobl, discharged=ndis, evaluations=nq,
+               distinct_nontrivial=nontriv, samples=samples or [dict(note='no sample')],
+               rule='one program = one extern "C" specialization compared with its YAML definition; one evaluation = one '
+                    'solver query; non-trivial = case whose write/error reachability twin is sat',
+               specializations_total=len(specs), specializations_agree=programs_ok,
+               inconclusive=sorted(set(inconclusive)), not_encodable=[list(x) for x in unsupported][:80],
+               definitions_not_executable=sorted(seenk), bound='loop trip counts <= %d, capacities <= %d' % (N, 4 * N * N + 64))
+    return cov
